@@ -83,4 +83,5 @@ def test(succ):
     s=mk(succ); s.restructure()
     orig={str(k):tuple(str(x) for x in v) for k,v in succ.items()}
     check_flat(orig,s,set(orig)); check_region(orig,s,set(orig))
-t=time.time(); test(); print(N[0], round(time.time()-t,1),'s'); print(C); print(sorted(sizes.items()))
+if __name__=="__main__":
+  t=time.time(); test(); print(N[0], round(time.time()-t,1),'s'); print(C); print(sorted(sizes.items()))
